@@ -517,7 +517,9 @@ theorem filter_source_facts :
     Gen.FactsC09.handleStatusCodes = ["http.StatusTooManyRequests"] ∧
     -- (one `AcquirePermission` per request, on the first matching rule: `handle_regenerated_from_source`;
     -- the count of the printed callee `u.rl.AcquirePermission` that stood here alarmed on a rename of `u`)
-    Gen.FactsC09.reloadSharesLimiter = 1 ∧ Gen.FactsC09.reloadClearsPrev = 0 ∧
+    -- (`reload` shares the limiter and does not clear the previous generation's pointer:
+    -- `reload_regenerated_from_source`; the counts of the printed statements `url.rl = prev.rl` / `prev.rl = nil`
+    -- that stood here alarmed on a rename of the loop variables)
     Gen.FactsC09.multiLocksFirst = true ∧ Gen.FactsC09.multiClockReads = 1 := by decide
 
 end Filter
